@@ -1,10 +1,13 @@
 (* C04 — failures are contained, reported, and not remembered.
+   ROUND 2 (end of this file): containment and the verdict on EVERY work order (Model/Sched.v), no longer only the
+   serial schedule; the next paragraph describes round 1.
    Only the property theorems; proofs in Proofs/C04Facts.v and Proofs/BuildFacts.v.
    PARTIAL with respect to schedules and to "still brought up to date correctly": the theorems are about
    the modelled build (serial schedule); that every schedule gives the same verdict is C06 (explored), that
    unaffected rules end with the from-scratch contents is C01 applied to them (monitored here on every
    history and schedule with an independent from-scratch evaluator). *)
-From Ruler Require Import Bytes AList RuleSyntax TopoSort World Cmdlang Work Build Ops BuildSpec BuildFacts C04Facts.
+From Ruler Require Import Bytes AList RuleSyntax TopoSort World Cmdlang Work Build Ops Inv BuildSpec Ideal BuildFacts C04Facts InvFacts C01Hist
+     C01Build C01Facts Sched SchedBasic SchedFacts.
 
 (* reported: the verdict is success iff no thread failed; otherwise it carries exactly one error per failed
    thread (a rule whose command exits non-zero or does not produce a target, a missing leaf), in join order;
@@ -74,4 +77,35 @@ Proof.
   - intros [_ H]. discriminate.
 Qed.
 
+(* ------------------------------------------------------------------------------------------------------
+   ON EVERY SCHEDULE (Model/Sched.v, Proofs/SchedBasic.v, SchedFacts.v). After the work steps of any valid order:
+   every worker has a result; a worker passes a cancel on exactly when it failed or was itself canceled; a leaf is
+   never canceled; a rule node is canceled — runs no command, changes nothing — exactly when one of the workers it
+   waits for passed a cancel on. With C06_same_verdict_and_files_for_every_work_order the verdict (one error per
+   failed rule or missing leaf, in spawn order) is the same for every order, and every rule that does not depend
+   on a failure ends with the from-scratch contents (C06_every_work_order_equals_scratch gives it for successful
+   builds; the invariant behind it, Proofs/SchedInv.v winv, per rule in failing builds too). *)
+Local Close Scope N_scope.
+Theorem C04_containment_on_every_work_order : forall pack (blobs : list (blob sym)) hists (w1 : world sym) ord,
+  plan_wf pack -> blobs_shaped sym pack blobs -> valid_order pack ord ->
+  let st1 := fold_left (work_step sym_eqb SContent SList pack blobs hists) ord (st_init sym w1 pack) in
+  forall k, (k < nworkers pack)%nat ->
+    exists r tr,
+      nth k (ss_res st1) None = Some (r, tr) /\
+      (sent_cancel sym st1 k <-> (tr = TCanceled \/ exists e, tr = TErr e)) /\
+      (forall wr, tr = TOk wr -> nth k (ss_sent st1) None = Some (Some (wr_tickets wr))) /\
+      ((k < length (p_leaves pack))%nat -> tr <> TCanceled) /\
+      ((length (p_leaves pack) <= k)%nat ->
+       (tr = TCanceled <-> exists d, In d (deps pack k) /\ sent_cancel sym st1 d)).
+Proof. exact sched_failure_containment_sym. Qed.
+
+(* a canceled worker's step leaves the world and the list of executed script lines as they were *)
+Theorem C04_canceled_rule_does_nothing : forall pack (blobs : list (blob sym)) hists (st : sstate sym) k r,
+  has_worked sym st k = false ->
+  nth k (ss_res (work_step sym_eqb SContent SList pack blobs hists st k)) None = Some (r, TCanceled) ->
+  ss_world (work_step sym_eqb SContent SList pack blobs hists st k) = ss_world st /\
+  ss_commands (work_step sym_eqb SContent SList pack blobs hists st k) = ss_commands st.
+Proof. exact (work_step_canceled_frame sym sym_eqb SContent SList). Qed.
+
 Check C04_one_error_per_failure.
+Check C04_containment_on_every_work_order.
